@@ -32,7 +32,7 @@ From FT Require Proofs.CoreTieBundle.
 From FT Require Proofs.EditWFEdge Proofs.EditWFNodeExample.
 From FT Require Model.EditCtor Proofs.EditCtor.
 From FT Require Gen.Accessors_gen Proofs.AccessorsTie.
-From FT Require Proofs.EditSegNone Proofs.EditSessionsToggle Proofs.EditSegNoneToggle.
+From FT Require Proofs.EditSegNone Proofs.EditSegShape Proofs.EditSessionsToggle Proofs.EditSegNoneToggle.
 Import ListNotations.
 Open Scope Z_scope.
 
@@ -358,6 +358,15 @@ Proof. exact FT.Proofs.EditSegNone.run_seg_none. Qed.
 Theorem C07_no_array_stays_none_switching : forall ops st, seg st = None ->
   seg (FT.Proofs.EditSessionsToggle.run2 st ops) = None.
 Proof. exact FT.Proofs.EditSegNoneToggle.run2_seg_none. Qed.
+(* ---- and an array that is there keeps its shape: along every such session the array is never dropped and
+        keeps its number of frames and the size of every frame, whatever the calls return (strokes that raise
+        and are rolled back included; Proofs/EditSegShape.v) ---- *)
+Theorem C07_sessions_keep_array_shape : forall ops st sg, seg st = Some sg ->
+  exists sg', seg (run st ops) = Some sg' /\ same_shape sg' sg.
+Proof. exact FT.Proofs.EditSegShape.run_keeps_array_shape. Qed.
+Theorem C07_sessions_keep_array_shape_switching : forall ops st sg, seg st = Some sg ->
+  exists sg', seg (FT.Proofs.EditSessionsToggle.run2 st ops) = Some sg' /\ same_shape sg' sg.
+Proof. exact FT.Proofs.EditSegNoneToggle.run2_keeps_array_shape. Qed.
 Example C07_no_array_nonvacuous :
   seg (FT.Model.Edit.upd_seg ex0 None) = None /\
   fst (snd (step (FT.Model.Edit.upd_seg ex0 None) (OPaint 5 2 [0; 1] 9 false))) <> 0 /\
@@ -464,3 +473,5 @@ Print Assumptions C07_sessions_from_any_construction.
 Print Assumptions C07_accessors_are_generated.
 Print Assumptions C07_no_array_stays_none.
 Print Assumptions C07_no_array_stays_none_switching.
+Print Assumptions C07_sessions_keep_array_shape.
+Print Assumptions C07_sessions_keep_array_shape_switching.
